@@ -10,5 +10,5 @@ lake build MirVerif 2>&1 | tail -1
 for i in 01 02 03 04 05 06 07 08 09 10 11 12 13 14 15 16 17 18 19 20; do
   lake build MirVerif.Props.C$i mirdrv_c$i >/dev/null 2>&1 || echo "setup: C$i targets did not build (its check will report it)"
 done
-lake build mirdrv_c19b >/dev/null 2>&1 || true
+lake build mirdrv_c19b mirdrv_c19d >/dev/null 2>&1 || true
 exit 0
